@@ -11,6 +11,7 @@ import (
 	peer "github.com/libp2p/go-libp2p/core/peer"
 
 	"github.com/ipfs/go-graphsync"
+	"github.com/ipfs/go-graphsync/verifhook"
 )
 
 const thawSpeed = time.Millisecond * 100
@@ -136,6 +137,7 @@ func (tq *WorkerTaskQueue) worker(executor Executor) {
 			tq.noTaskCond.L.Lock()
 			tq.activeTasks = tq.activeTasks + 1
 			tq.noTaskCond.L.Unlock()
+			verifhook.Yield("tq.beforeExecute")
 			terminate := executor.ExecuteTask(tq.ctx, pid, task)
 			tq.noTaskCond.L.Lock()
 			tq.activeTasks = tq.activeTasks - 1
